@@ -25,7 +25,7 @@ static std::shared_ptr<quill::Sink> file_sink(std::string const& f, bool hook)
 // runs in a forked child (a fresh backend per case); prints nothing, exit code 0 = as expected, 1 = mismatch (details in a result file)
 static int child(int arrangement, int k, bool sleepy, std::string const& dir)
 {
-  alarm(40);
+  alarm(120);
   quill::BackendOptions bo; bo.sleep_duration = sleepy ? std::chrono::microseconds{150000} : std::chrono::microseconds{0};
   bo.sink_min_flush_interval = std::chrono::milliseconds{60000};      // nothing is flushed by the periodic path during the case
   quill::Backend::start(bo);
